@@ -38,6 +38,22 @@ pub fn symbol_with_code<A: HC>(code: u8) -> Option<A> {
     None
 }
 
+fn iupac_arr_contains(x: &SeqSlice<Iupac>, y: &SeqSlice<Iupac>) -> R<String> {
+    macro_rules! go {
+        ($($n:literal)*) => {
+            match x.len() {
+                $($n => {
+                    const W: usize = ($n * 4 + 63) / 64;
+                    let arr = crate::hc::make_arr::<Iupac, $n, W>(x);
+                    Ok(format!("{}", arr.contains(y)))
+                })*
+                _ => Err(Fail::Unsup),
+            }
+        };
+    }
+    go!(1 2 3 4 5 8 10 11 12 13 15 16 17 21 31 32 33 48 63 64 65 96 128)
+}
+
 fn dna_convarr(target: &str, byval: bool, x: &SeqSlice<Dna>) -> R<String> {
     macro_rules! go {
         ($($n:literal)*) => {
@@ -216,6 +232,8 @@ pub fn special(codec: &str, q: &str, t: &mut Toks) -> Option<R<String>> {
                         eval_s::<Iupac, _>(&b, &mut |y| Ok(format!("{}", l.contains(y))))?
                     }
                     "slice" => eval_s::<Iupac, _>(&a, &mut |x| eval_s::<Iupac, _>(&b, &mut |y| Ok(format!("{}", x.contains(y)))))?,
+                    // the static-array impl `SeqArray<Iupac, N, W>::contains`, array built by hand
+                    "arr" => eval_s::<Iupac, _>(&a, &mut |x| eval_s::<Iupac, _>(&b, &mut |y| iupac_arr_contains(x, y)))?,
                     _ => return Err(Fail::BadOp("contains kind".into())),
                 }
             }
